@@ -385,8 +385,37 @@ def check(case, acc, tmp):
             P.state(acc, 'read', ld, ck, r.table_id, r.generated_by)
             acc.outcomes.add(ck)
             compare(r, src, gen, exp_id, ld, bad, acc, date_of(case))
+            if ld == 'from_hdf5' and case['prod'] in ('B-hdr', 'B-type'):
+                # second generation: the loaded table is itself "a table produced by some history"
+                second_generation(r, src, gen, exp_id, bad, acc, date_of(case))
     finally:
         art.close()
+
+
+def second_generation(r, src, gen, exp_id, bad, acc, date):
+    import h5py
+    from biom import Table
+    acc.trans += 2
+    acc.evals += 1
+    fh = h5py.File('c01-gen2-%d-%d.h5' % (os.getpid(), id(r)), 'w', driver='core', backing_store=False)
+    try:
+        try:
+            r.to_hdf5(fh, gen, creation_date=date)
+        except Exception as e:
+            bad('second-generation:writer-raised:' + type(e).__name__, 'a table read from HDF5 cannot be written '
+                'again: to_hdf5 raised %s: %s' % (type(e).__name__, str(e)[:300]))
+            return
+        try:
+            r2 = Table.from_hdf5(fh)
+        except Exception as e:
+            bad('second-generation:reader-raised:' + type(e).__name__, 'from_hdf5 of the re-written file raised '
+                '%s: %s' % (type(e).__name__, str(e)[:300]))
+            return
+    finally:
+        fh.close()
+    # the table id placeholder of the first generation is an id now
+    compare(r2, src, gen, exp_id, 'second-generation', bad, acc, date)
+    acc.count('clause:second-generation')
 
 
 def compare(r, src, gen, exp_id, ld, bad, acc, date=DATE):
@@ -551,7 +580,7 @@ def run(run):
     run.extra['layout_classes'] = {k[7:]: v for k, v in c.items() if k.startswith('layout:')}
     run.extra['bound'] = bound(run.tier)
     run.extra['cases'] = len(cs)
-    need = ['clause:history-roundtrip', 'clause:source-unchanged', 'clause:ids', 'clause:values', 'clause:metadata',
+    need = ['clause:second-generation', 'clause:history-roundtrip', 'clause:source-unchanged', 'clause:ids', 'clause:values', 'clause:metadata',
             'clause:metadata-present', 'clause:type', 'clause:table_id', 'clause:table_id-placeholder',
             'clause:generated_by', 'clause:creation_date', 'clause:group-metadata',
             'clause:group-metadata-present']
